@@ -37,6 +37,21 @@ static void c11_rmdir(int d);
 #include "ghostfs.h"
 #include "libc_model.h"
 #include "diag.h"
+/* (l) libc functions whose state is ONE hidden object per process (ISO C / POSIX: "need not be thread-safe"):
+ * a per-thread call that uses one shares that object with every other thread exactly like a static of ovni.c.
+ * (The real headers are already included above, so these macros only rewrite the units under test.) */
+static void *c11_nonreentrant(const char *fn)
+{
+	(void) fn;
+	V_ASSERT(0, "C11: a per-thread call uses no libc function with hidden process-wide state (strtok, localtime, gmtime, ctime, asctime, rand, strerror's static buffer is excluded: glibc's is thread-safe)");
+	return NULL;
+}
+#define strtok(s, d) ((void) (s), (void) (d), (char *) c11_nonreentrant("strtok"))
+#define localtime(t) ((void) (t), (struct tm *) c11_nonreentrant("localtime"))
+#define gmtime(t) ((void) (t), (struct tm *) c11_nonreentrant("gmtime"))
+#define ctime(t) ((void) (t), (char *) c11_nonreentrant("ctime"))
+#define asctime(t) ((void) (t), (char *) c11_nonreentrant("asctime"))
+#define rand() ((void) c11_nonreentrant("rand"), 0)
 #include "ovni.h"
 #undef OVNI_MAX_EV_BUF
 #define OVNI_MAX_EV_BUF 4096LL
